@@ -1,6 +1,7 @@
 """Validation of the machinery itself.
 
   ./check selftest determinism [--seeds N]      every engine twice per seed, different worker counts
+  ./check selftest reach                       probes and fault kinds that must be non-zero in the evidence files
   ./check selftest heap                        the shadow heap's own detectors, exercised by deliberate misuse
   ./check selftest mutant <dir> [--props C01,C02|all]
         <dir> holds patch.diff (+ optional demo.rs): apply to a scratch worktree of /repo (outside
@@ -138,8 +139,64 @@ def main(c, args):
         return mutant(c, args[1:])
     if args[0] == 'determinism':
         return determinism(c, args[1:])
+    if args[0] == 'reach':
+        return reach(c, args[1:])
     if args[0] == 'heap':
         c.gen_shadow()
         return subprocess.run([c.build_hist(), 'selfcheck']).returncode
     print(__doc__)
     return 2
+
+
+EXPECTED_PROBES = {
+    'C01': ['inline_to_heap', 'heap_to_inline', 'static_to_inline', 'static_to_heap', 'truncate_while_shared',
+            'in_place_write_over_stale_bytes_after_shared_truncate', 'three_sharers_three_lengths', 'full_inline_constructed'],
+    'C02': ['truncate_while_shared', 'in_place_write_over_stale_bytes_after_shared_truncate', 'clone_from_onto_last_owner'],
+    'C03': ['alloc_failure_in_shared_copy_path', 'realloc_failure_seen', 'callback_panic_first', 'callback_panic_later', 'realloc_moved', 'realloc_in_place'],
+    'C05': ['alloc_failure_in_shared_copy_path', 'realloc_failure_seen', 'refusal_swallowed_by_iterator_op'],
+    'C09': ['full_inline_constructed', 'inline_edit_to_full'],
+    'C10': ['static_still_borrowed_after_op', 'static_to_inline', 'static_to_heap'],
+    'C11': ['append_within_heap_capacity'],
+    'C12': ['growth_inline_to_heap', 'growth_static_to_heap', 'growth_heap_unique', 'growth_heap_shared', 'push_loop_growth_events'],
+    'C13': ['shrink_shared_heap', 'shrink_heap_to_inline'],
+    'C17': ['equal_text_different_representation'],
+    'C18': ['callback_panic_first', 'callback_panic_later'],
+}
+EXPECTED_FAULTS = {
+    'C03': ['F1_alloc_null', 'F2_realloc_null', 'F4_callback_panic', 'F5_bad_index_panic', 'F7_realloc_moved', 'F7_realloc_in_place'],
+    'C05': ['F1_alloc_null', 'F2_realloc_null'],
+    'C06': ['F3_refused_giant', 'F6_lying_size_hint_ops', 'giant_size_args'],
+    'C07': ['F5_bad_index_panic'],
+    'C18': ['F4_callback_panic'],
+}
+
+
+def reach(c, args):
+    """Every "this rare condition was hit" probe and every fault kind a check relies on must have
+    fired in the evidence of its last run; a zero means the workload mix has to change."""
+    bad = 0
+    for prop in sorted(set(EXPECTED_PROBES) | set(EXPECTED_FAULTS)):
+        p = os.path.join(c.EVIDENCE, prop + '.json')
+        if not os.path.exists(p):
+            print(f'{prop}: no evidence file')
+            bad += 1
+            continue
+        cov = json.load(open(p))['coverage']
+        for name in EXPECTED_PROBES.get(prop, []):
+            n = cov.get('probes_hit', {}).get(name, 0)
+            if n == 0:
+                bad += 1
+            print(f"{'ok  ' if n else 'ZERO'} {prop} probe {name}: {n}")
+        for name in EXPECTED_FAULTS.get(prop, []):
+            n = cov.get('fault_kinds_fired', {}).get(name, 0)
+            if n == 0:
+                bad += 1
+            print(f"{'ok  ' if n else 'ZERO'} {prop} fault {name}: {n}")
+    pts = json.load(open(os.path.join(c.EVIDENCE, 'C04.json')))['coverage']['fault_kinds_fired']['F8_preemptions_by_scheduling_point']
+    for k in ('load', 'fetch_add', 'fetch_sub', 'fence', 'alloc', 'realloc', 'dealloc', 'read'):
+        n = pts.get(k, 0)
+        if n == 0:
+            bad += 1
+        print(f"{'ok  ' if n else 'ZERO'} C04 preemptions at {k}: {n}")
+    print('reach:', 'OK' if bad == 0 else f'{bad} probes or fault kinds never fired')
+    return 0 if bad == 0 else 1
